@@ -23,6 +23,7 @@ import (
 	"fmt"
 	"io"
 	"log"
+	"math/rand"
 	"reflect"
 	"sort"
 	"time"
@@ -471,12 +472,28 @@ func (k *KVStore) Range(f func(hkey uint64, e storage.Entry) bool) {
 // the number of elements in the map even if f returns false after a constant
 // number of calls.
 func (k *KVStore) RangeHKey(f func(hkey uint64) bool) {
-	// Scan available tables by starting the last added table.
-	for i := len(k.tables) - 1; i >= 0; i-- {
-		t := k.tables[i]
+	// The eviction workers sample a few keys per call and stop. Start at a table chosen
+	// at random, wrap around, and stop for good when f says so: with a fixed starting
+	// point, and a "stop" that only ended the current table, the keys of the older
+	// tables were never looked at once the newest table held enough keys.
+	n := len(k.tables)
+	if n == 0 {
+		return
+	}
+	start := rand.Intn(n)
+	for j := 0; j < n; j++ {
+		t := k.tables[(start+j)%n]
+		stopped := false
 		t.RangeHKey(func(hkey uint64) bool {
-			return f(hkey)
+			if !f(hkey) {
+				stopped = true
+				return false
+			}
+			return true
 		})
+		if stopped {
+			return
+		}
 	}
 }
 
